@@ -47,8 +47,9 @@ def gen_family(name, consts, *, timeout=900, workers=8, simulate=None, depth=Non
         seen.add(js)
         sc = json.loads(js)
         sc["fam"] = name
-        out.append(sc)
-    return out, run
+        out.append((js, sc))
+    out.sort(key=lambda t: t[0])          # TLC's workers print in a nondeterministic order: make every later seeded choice reproducible
+    return [sc for _, sc in out], run
 
 
 def decorate(scs, *, seed, calls_choices=(("invoke",), ("stream",), ("invoke", "stream"), ("stream", "invoke")),
